@@ -56,6 +56,7 @@ type evGen struct {
 	ctl     bool
 	shadow  bool
 	inFn    bool // inside a lambda / defun body
+	inDefun bool // inside a defun body (no direct lambda call there: C01 finding dlambda.in-defun)
 	held    [evNMutex]bool
 	trn     int
 	iter    int // product of the iteration bounds of the enclosing loops
@@ -385,7 +386,7 @@ func (g *evGen) intExpr(d int) string {
 			g.sub("apply.arg", func() string { return g.expr(tL, d-1) }))
 	case 28:
 		// direct lambda call
-		if g.shadow {
+		if g.shadow || (g.inDefun && g.avoid("dlambda.in-defun", "c01")) {
 			return g.letExpr(tI, d)
 		}
 		g.count("lambda-call")
@@ -740,6 +741,10 @@ func (g *evGen) loopExpr(d int, asStmt bool) string {
 	if g.r.Chance(50) {
 		stepA = fmt.Sprintf("(+ %s %s)", i, stepA)
 	}
+	if g.r.Chance(25) {
+		// a variable without step form keeps its value
+		return fmt.Sprintf("(%s ((%s 0 (+ %s 1)) (%s %s)) (%s %s) %s)", form, i, i, a, initA, test, res, body)
+	}
 	return fmt.Sprintf("(%s ((%s 0 (+ %s 1)) (%s %s %s)) (%s %s) %s)", form, i, i, a, initA, stepA, test, res, body)
 }
 
@@ -960,6 +965,8 @@ func (g *evGen) defun(recursive bool) string {
 	savedT, savedIn, savedIter, savedVars := g.targets, g.inFn, g.iter, g.vars
 	g.targets, g.inFn, g.iter = nil, true, 4
 	g.vars = nil
+	g.inDefun = true
+	defer func() { g.inDefun = false }()
 	if g.ctl {
 		// a defun body is an implicit block named like the function
 		g.targets = []gtarget{{name: name, ok: true, kind: "ret-from"}}
